@@ -260,9 +260,9 @@ def c07():
     p = Prop("C07")
     p.smt_tasks.append(SmtTask("c07_grammar_tables", "c07_grammar.py", quick=True, timeout=1200, args=["3"], thorough_args=["5"]))
     p.smt_tasks.append(SmtTask("lexer_regex_c07", "c07_lexer.py", quick=True, timeout=300, args=["C07"]))
-    for h, q in (("fold_len1", True), ("fold_len2", True), ("fold_mixed", False), ("operation_names", True)):
+    for h, q in (("fold_len1", True), ("operation_names", True)):
         p.add("h_parse::parse_" + h, quick=q, timeout=900, drives=["AST::from_binary_expression", "AST::operation", "Identifier::from(Operator)"],
-              bound="operator fold over 3 operators, operators symbolic within their symbol-length class")
+              bound="operator fold over 3 one-character operators (symbolic); method names of all 13 operators")
     p.functions = ["fml.lalrpop: LALR tables generated by lalrpop 0.18.1 (__ACTION, __EOF_ACTION, __GOTO, __reduceN), match-block regexes",
                    "parser::AST::{from_binary_expression,operation}", "parser::Operator::as_str", "<Identifier as From<Operator>>::from"]
     p.bounds = ["precedence / associativity: all 13^n operator tuples, n <= 3 (quick) / n <= 5 (thorough), on the generated tables",
